@@ -19,6 +19,9 @@ Inductive status := SUCCESS | EXISTS | NO_MEM | NOT_FOUND | BAD_ARG.
 Definition alloc (o : list bool) : bool * list bool :=
   match o with [] => (true, []) | b :: o' => (b, o') end.
 
+(* operations of a history; the element stored by the k-th OIns of a history has identity k *)
+Inductive op := OIns (x : elt) | ORem (id : Z) | OFind (x : elt).
+
 (* Fibonacci numbers: an AVL tree of height h has at least fib (h+2) - 1 nodes, i.e.
    h <= log_phi (n+2) - 0.33 ~ 1.44 log2 (n+2) *)
 Fixpoint fib (n : nat) : nat :=
@@ -93,5 +96,14 @@ Definition sp_remove (id : Z) (s : sstate) : status * sstate * list item :=
   end.
 
 Definition sp_size (s : sstate) : Z := Z.of_nat (length (fst s)).
+
+(* histories: the listing after a history (find does not change it) *)
+Fixpoint srun (dup : bool) (ops : list op) (o : list bool) (s : sstate) : sstate :=
+  match ops with
+  | [] => s
+  | OIns x :: ops' => let '(_, _, s', o') := sp_insert dup x o s in srun dup ops' o' s'
+  | ORem id :: ops' => let '(_, s', _) := sp_remove id s in srun dup ops' o s'
+  | OFind _ :: ops' => srun dup ops' o s
+  end.
 
 End Spec.
